@@ -196,6 +196,69 @@ def error_program(rng):
     return lines, {"kind": "error"}
 
 
+def pending_growth_session_program(rng):
+    """an alter session opened while uncommitted code is pending that does not fit the mapping: the commit at the head of `alter` MOVES the
+    buffer, and the address-dependent fields the session writes must be computed against the new address"""
+    lines = ["new asm x86", "nd", "nd", "ll 1", "gl 9", "dl 0"]
+    lines.append(f"ex {hexb(rng.bytes(rng.range(16, 64)))}")
+    lines.append(f"ex {hexb(rng.bytes(8))}")
+    lines.append(f"rx @{rng.range(-2**40, 2**40)} 8 0 x86.8.2")
+    lines.append(f"ex {hexb(rng.bytes(rng.range(8, 40)))}")
+    lines += ["c", "buf"]
+    # pending, uncommitted code that outgrows the 4096-byte mapping (sometimes two doublings)
+    lines.append(f"ex {hexb(rng.bytes(rng.choice([4200, 5000, 9000])))}")
+    lines.append("alter{")
+    at = rng.range(16, 40) & ~7
+    lines.append(f"goto {at + 80}")
+    k = rng.below(3)
+    lines.append(f"ex {hexb(rng.bytes(8))}")
+    if k == 0:
+        # an ABSOLUTE external target (the harness resolves `@N` inside a session against the address before the session)
+        lines.append(f"rx {0x7f0000000000 + rng.range(0, 2**36)} 8 0 x86.8.2")
+    elif k == 1:
+        lines.append("rg 9 0 8 8 x86.8.1")
+    else:
+        lines.append("rd 0 3 8 8 x86.8.1")
+    lines += ["}alter", "buf"]
+    if rng.chance(1, 2):
+        lines.append(f"ex {hexb(rng.bytes(20000))}")
+        lines += ["c", "buf"]
+    return lines, {"kind": "managed"}
+
+
+def failed_commit_over_tracked_offsets_program(rng):
+    """committed code with tracked fields at small offsets; then a batch whose FIRST bytes are a reference without definition, so that the
+    unresolved field has the same offset inside its batch as a tracked field has in the buffer; the commit fails, the label is defined, the
+    retry succeeds and a later commit moves the buffer: the old tracked fields must still follow"""
+    lines = ["new asm x86", "nd", "nd", "ll 1", "gl 9", "dl 0"]
+    shape = rng.below(3)
+    if shape == 0:
+        lines.append("ex " + hexb(bytes([0xE8]) + rng.bytes(4)))
+        lines.append(f"rx @{rng.range(-2**30, 2**30)} 4 0 x86.4.2")
+    elif shape == 1:
+        lines.append(f"ex {hexb(rng.bytes(8))}")
+        lines.append(f"rx @{rng.range(-2**40, 2**40)} 8 0 x86.8.2")
+    else:
+        lines.append(f"ex {hexb(rng.bytes(8))}")
+        lines.append("rg 9 5 8 8 x86.8.1")
+    lines.append(f"ex {hexb(rng.bytes(rng.range(20, 60)))}")
+    lines += ["c", "buf"]
+    # the failing batch: same leading layout, a plain relative reference to a label that does not exist yet
+    if shape == 0:
+        lines.append("ex " + hexb(bytes([0xE9]) + rng.bytes(4)))
+        lines.append("rg 20 0 4 0 x86.4.0")
+    else:
+        lines.append(f"ex {hexb(rng.bytes(8))}")
+        lines.append("rg 20 0 8 8 x86.8.0")
+    lines.append(f"ex {hexb(rng.bytes(rng.range(4, 30)))}")
+    fail_ix = len(lines)
+    lines.append("c")
+    lines.append("gl 20")
+    lines.append(f"ex {hexb(rng.bytes(rng.choice([4200, 9000])))}")
+    lines += ["c", "buf"]
+    return lines, {"kind": "managed", "expected_err": [fail_ix]}
+
+
 def evaluator(p, res, meta):
     """after every commit / session: every tracked, not overwritten field decodes to the value its reference denotes at the buffer's
     CURRENT address"""
@@ -251,6 +314,8 @@ def evaluator(p, res, meta):
                                     f"and is {got[o]:02x} after a later move (buffer at {addr:#x})")
             continue
         if ws[0] in ("c", "}alter") and a.startswith("err"):
+            if meta and idx in meta.get("expected_err", ()) and a.startswith("err Unknown"):
+                continue
             return ({"kind": "unexpected-error", "op": ws[0]}, f"`{ws[0]}` returned `{a}`")
         if ws[0] == "buf" and a.startswith("x") and last_commit >= 0:
             try:
@@ -294,6 +359,14 @@ def check(run):
     progs, metas = [], []
     for _ in range(12000 if thorough else 1200):
         lines, meta = managed_program(rng, thorough)
+        progs.append(lines)
+        metas.append(meta)
+    for _ in range(2000 if thorough else 150):
+        lines, meta = pending_growth_session_program(rng)
+        progs.append(lines)
+        metas.append(meta)
+    for _ in range(2000 if thorough else 150):
+        lines, meta = failed_commit_over_tracked_offsets_program(rng)
         progs.append(lines)
         metas.append(meta)
     for _ in range(3000 if thorough else 300):
